@@ -14,6 +14,7 @@ T={
  "C09":("exploration","runtime monitoring: per-tx token registry/ledger probe (records, indexes, burn tally, bank supply, full balance sheet incl. module account) against a reference registry; hostile non-owners and re-issues"),
  "C10":("exploration","runtime monitoring: pure-function probe of LossLessSwap in exact integers over all 361 scale pairs; per-tx bank + harness-EVM ledger probes around ERC20 conversions with injected EVM faults, fee-token swaps via a registry-configured keeper, EVM->native hook"),
  "C11":("fault_enumeration","runtime monitoring by differential replicas: a journaled all-modules history re-executed in separate processes (later wall-clock, on-disk DB with application close/reopen at block boundaries incl. across process exit, other GOMAXPROCS/GOGC), byte comparison of app hashes, per-store KV digests, tx results and repeated genesis exports; host-clock straddle probes; -race build with concurrent query/simulate/checktx storm in the thorough tier"),
+ "C12":("exploration","runtime monitoring by differential applications: checkpoints of the all-modules history are exported and re-imported into fresh applications (full as-is, per-module isolated, zero-height after the modules' preparation steps); acceptance, export fixpoint per module section and byte comparison of a fixed list of gRPC queries routed on both applications at equal height/time"),
  "C14":("exploration","runtime monitoring: per-tx NFT state probe (all classes, tokens, owners, supplies, owner listings via the module's queries) against a reference ownership map, hostile actors"),
  "C15":("exploration","runtime monitoring: per-tx MT state probe incl. raw balance-store walk against an arbitrary-precision reference ledger, boundary/overflow amounts"),
  "C20":("exploration","runtime monitoring of the two generated code families in one process: exhaustive registry/descriptor walk (gogoproto registry vs protobuf-go registry, every .proto under proto/irismod, every Msg signer via the application's signing context) + descriptor-driven cross-family byte round trips; thorough tier under the checkptr sanitizer"),
@@ -22,7 +23,7 @@ T={
  "C19":("exploration","runtime monitoring: response-id uniqueness monitor, query read-back of every id (per block, periodic, final) and block-to-block raw store diff (append-only)"),
 }
 NA={}
-FIXES=["65bfa74 (C12 crisis genesis order)","45bb3a0 (C09 EditToken)","1a3d839 007a7e9 (C10 LossLessSwap, swap target)","9199708 (C04 HTLC to escrow)","da70e52 (C12 HTLC timestamp 0 genesis)","3e7d2da (C12 oracle import history)","1df21f2 (C05 farm debt rounding)","59c32e3 (C06 farm AdjustPool)","8b62807 d0b1358 d156cb8 (C07 service fees)","834e3f7 92557ec (C08 service schedule)","5aec873 (C11 MT export order)","b770505 (C11 oracle host clock)","82dca39 (C02 double-hop swap settlement)","4b78834 (C17 oracle Max of all-negative responses)","c092f06 (C17 oracle Avg overflow)"]
+FIXES=["3207d3e ff58504 (C12 farm queue on import, token genesis validation)","65bfa74 (C12 crisis genesis order)","45bb3a0 (C09 EditToken)","1a3d839 007a7e9 (C10 LossLessSwap, swap target)","9199708 (C04 HTLC to escrow)","da70e52 (C12 HTLC timestamp 0 genesis)","3e7d2da (C12 oracle import history)","1df21f2 (C05 farm debt rounding)","59c32e3 (C06 farm AdjustPool)","8b62807 d0b1358 d156cb8 (C07 service fees)","834e3f7 92557ec (C08 service schedule)","5aec873 (C11 MT export order)","b770505 (C11 oracle host clock)","82dca39 (C02 double-hop swap settlement)","4b78834 (C17 oracle Max of all-negative responses)","c092f06 (C17 oracle Avg overflow)"]
 checks=[]
 for p in props:
     i=p['id']
